@@ -15,9 +15,39 @@ ASSUMPTIONS = [
 ]
 
 
+def reader_correspondence(ctx, rng, n):
+    """the reader model (coq/Model/Input.v, extracted) against the expression main.rs builds its sample iterator from, run in
+    the harness over a source whose read() calls return exactly the given chunks; plus an independent oracle (struct.unpack of
+    the byte stream as a whole)"""
+    import struct
+    lines, wants = [], []
+    for j in range(n):
+        data = rng.bytes(rng.choice([0, 1, 2, 3, 5, 8, rng.range(0, 120), rng.range(0, 400)]))
+        chunks, pos = [], 0
+        style = rng.below(4)
+        while pos < len(data):
+            k = {0: 1, 1: rng.range(1, 4), 2: rng.range(1, 40), 3: rng.choice([1, 2, 3, 7, 8191])}[style]
+            chunks.append(data[pos:pos + k]); pos += k
+        lines.append("readi16 " + (",".join(c.hex() for c in chunks) if chunks else "-"))
+        m = len(data) // 2
+        wants.append(",".join(str(v) for v in struct.unpack("<%dh" % m, data[:2 * m])) if m else "-")
+    mo = vlib.run_lines(vlib.MODELRUN, lines); im = vlib.run_lines(vlib.IMPLRUN, lines)
+    ok = 0
+    for l, a, b_, w in zip(lines, mo, im, wants):
+        if a != b_:
+            ctx.violation("correspondence", "sample reader: model and implementation differ", {"input": l, "model": a[:300], "impl": b_[:300]})
+        elif b_ != w:
+            ctx.violation("property", "sample reader: the samples depend on the read boundaries (or are not the little-endian pairs of the stream)",
+                          {"input": l, "impl": b_[:300], "expected": w[:300]})
+        else:
+            ok += 1
+    return ok
+
+
 def run(ctx):
     rng = ctx.rng.fork("C11")
     q = ctx.quick
+    ctx.coverage["sample_reader_chunkings_equal"] = reader_correspondence(ctx, rng.fork("reader"), 300 if q else 6000)
     nrec = 10 if q else 120
     ok, runs, nontriv, model_ok, samples, dist = 0, 0, 0, 0, [], {}
     with tempfile.TemporaryDirectory(prefix="c11_") as td:
